@@ -277,6 +277,9 @@ func anyText(v any) string {
 }
 
 func mkLambda(typ, tag string) *compose.Lambda {
+	if l := mkGlueLambda(typ, tag); l != nil {
+		return l
+	}
 	switch typ {
 	case "a":
 		return compose.InvokableLambda(func(ctx context.Context, in any) (string, error) { traceAdd(ctx, tag); return anyText(in) + tag, nil })
@@ -545,6 +548,8 @@ func (x *gInst) apply(op Op) (res callRes) {
 			res.Err = x.g.AddLambdaNode(op.Key, mkLambda(op.Typ, op.Key), nodeOpts(op, false)...)
 		case "P":
 			res.Err = x.g.AddPassthroughNode(op.Key, nodeOpts(op, true)...)
+		case "GC":
+			res.Err = graphAddComponent(x.g, op.Key, op.Typ)
 		case "GN":
 			sub, bp, where := buildSub(op.Sub)
 			if bp != nil {
@@ -591,6 +596,9 @@ func (x *cInst) apply(op Op) (res callRes) {
 				tag = op.Key // a tag of its own (the chain's node key is node_N whatever it is)
 			}
 			x.c.AppendLambda(mkLambda(op.Typ, tag), nodeOpts(op, false)...)
+		case "CC":
+			res.NA = true
+			appendComponent(x.c, op.Typ, op.Key)
 		case "CP":
 			res.NA = true
 			x.c.AppendPassthrough(nodeOpts(op, true)...)
@@ -680,6 +688,9 @@ func (x *wInst) apply(op Op) (res callRes) {
 				}
 			case op.Typ == "P":
 				h = x.wf.AddPassthroughNode(op.Key, nodeOpts(op, true)...)
+				x.handles[op.Key] = h
+			case strings.HasPrefix(op.Typ, "C:"):
+				h = workflowAddComponent(x.wf, op.Key, op.Typ[2:])
 				x.handles[op.Key] = h
 			case op.Typ == "G":
 				sub, bp, where := buildSub(op.Sub)
